@@ -763,7 +763,12 @@ func (e *Env) evalCall(x *Expr) TV {
 	case "cap":
 		return TV{Scalar{arg(0).V.(SliceV).Cap}, types.Typ[types.Int]}
 	case "arr":
-		return TV{Scalar{arg(0).V.(SliceV).Arr}, nil}
+		a0 := arg(0)
+		if sc, ok := a0.V.(Scalar); ok {
+			// an array-typed field: its storage address plays the role of the backing array
+			return TV{sc, nil}
+		}
+		return TV{Scalar{a0.V.(SliceV).Arr}, nil}
 	case "off":
 		return TV{Scalar{arg(0).V.(SliceV).Off}, types.Typ[types.Int]}
 	case "min", "max":
